@@ -27,6 +27,25 @@ for _v in ("OMP_NUM_THREADS", "OPENBLAS_NUM_THREADS", "MKL_NUM_THREADS"):
 
 POS_TOL = 1e-9  # positions that are computed in closed form by the library
 MIN_TOL = 2e-5  # positions that come out of scipy.optimize.minimize (relative to the size of the geometry)
+# A clamp created OFF its manifold reports the point scipy's minimiser finds. The distance to the creation point is
+# stationary there: a parameter error e costs only e^2/(2 d) in distance (d = distance off the manifold), so the
+# minimiser (tol = 1e-7 on the distance) fixes the *distance* to about 1e-7 but the *position* only to about
+# sqrt(2 d 1e-7) ~ 1e-4 … 1e-3.  "Its closest point" is therefore judged by what the search controls: the reported
+# point must lie on the manifold (exact clauses, 1e-9) and must not be farther from the creation point than the true
+# closest point by more than EXCESS_TOL (relative).  A clamp created ON the manifold has a sharp minimum (|t - m|)
+# and is still compared by position (MIN_TOL).
+EXCESS_TOL = 1e-6
+
+
+def excess_distance(pos, reported, exact) -> float:
+    """how much farther from the creation point the reported point is than the exact closest point"""
+    d = lambda a, b: math.sqrt(sum((float(x) - float(y)) ** 2 for x, y in zip(a, b)))  # noqa: E731
+    return d(pos, reported) - d(pos, exact)
+
+
+def closest_ok(pos, reported, exact) -> bool:
+    d = math.sqrt(sum((float(x) - float(y)) ** 2 for x, y in zip(pos, exact)))
+    return abs(excess_distance(pos, reported, exact)) <= EXCESS_TOL * (1.0 + d)
 
 
 def fl(v) -> List[float]:
@@ -86,8 +105,11 @@ class C17(core.Check):
         "position). Non-trivial = at least one update or move; distinct = different geometry or parameters."
     )
     assumptions = [
-        "scipy.optimize.minimize (ClampBase.get_params) is an oracle: its result is compared with the closed-form closest "
-        "point within 2e-5 relative; everything computed in closed form by the library is compared within 1e-9",
+        "scipy.optimize.minimize (ClampBase.get_params) is an oracle. A clamp created ON its line/plane is compared with the "
+        "creation position within 2e-5 relative (sharp minimum). A clamp created OFF it must report a point on the "
+        "manifold (1e-9) that is not farther from the creation position than the closed-form closest point by more than "
+        "1e-6 relative: the distance is stationary there, so the search controls the distance, not the position (a "
+        "parameter error e costs e^2/2d). Everything computed in closed form by the library is compared within 1e-9",
         "lengths enter the model as witnesses s with |s*s - |d|^2| <= 1e-9 (the float norm the library computed)",
         "the two in-plane directions of a PlaneClamp are drawn with numpy's random generator; the harness seeds it and "
         "reads the directions off clamp.function, the oracle checks that they are normal to the plane normal",
@@ -609,8 +631,21 @@ class C17(core.Check):
                 return f"{what}: model {fl(m)}, implementation {obs}"
             return None
 
+        def chk_initial(ans: str, what: str) -> Optional[str]:
+            if case["on"]:
+                return chk(ans, impl["initial"], MIN_TOL, what)
+            if "," not in ans:
+                return f"{what}: model answers {ans}"
+            m = parse_v(ans.split()[0])
+            if not closest_ok(FV(case["pos"]), impl["initial"], m):
+                return (
+                    f"{what}: model {fl(m)}, implementation {impl['initial']} is "
+                    f"{excess_distance(FV(case['pos']), impl['initial'], m):.3e} farther from the creation position"
+                )
+            return None
+
         if k == "line":
-            w = chk(model[0], impl["initial"], MIN_TOL, "initial position of LineClamp")
+            w = chk_initial(model[0], "initial position of LineClamp")
             if w:
                 return w
             for t, a, p in zip(case["ts"], model[1:], impl["positions"]):
@@ -618,7 +653,7 @@ class C17(core.Check):
                 if w:
                     return w
         elif k == "plane":
-            w = chk(model[0], impl["initial"], MIN_TOL, "initial position of PlaneClamp")
+            w = chk_initial(model[0], "initial position of PlaneClamp")
             if w:
                 return w
             for ab, a, p in zip(case["ab"], model[1:], impl["positions"]):
@@ -691,9 +726,14 @@ class C17(core.Check):
                 out.append({"site": "LineClamp:default-bounds", "what": "bounds are not (0, |p2 - p1|) / the ones given", "observed": impl["bounds"], "expected": [lo, hi]})
             t0 = min(max(float((pos - p1) @ d / np.linalg.norm(d)), lo), hi)
             exp = p1 + t0 * d / np.linalg.norm(d)
-            if not _near(exp, impl["initial"], MIN_TOL * sc):
-                site = "LineClamp:initial-position" + (":on-line" if case["on"] else ":projection")
-                out.append({"site": site, "what": "a fresh clamp does not report the closest point of its segment", "observed": impl["initial"], "expected": fl(exp)})
+            q0 = A(impl["initial"])
+            t_rep = float((q0 - p1) @ d / np.linalg.norm(d))
+            if np.linalg.norm(np.cross(q0 - p1, d)) > 1e-9 * sc * np.linalg.norm(d) or not (lo - 1e-9 * sc <= t_rep <= hi + 1e-9 * sc):
+                out.append({"site": "LineClamp:initial-position:off-segment", "what": f"a fresh clamp reports a point that is not on its segment (parameter {t_rep}, bounds {lo} … {hi})", "observed": impl["initial"]})
+            elif case["on"] and not _near(exp, impl["initial"], MIN_TOL * sc):
+                out.append({"site": "LineClamp:initial-position:on-line", "what": "a clamp created on its segment does not report the creation position", "observed": impl["initial"], "expected": fl(exp)})
+            elif not case["on"] and not closest_ok(pos, impl["initial"], exp):
+                out.append({"site": "LineClamp:initial-position:projection", "what": f"a fresh clamp reports a point that is {excess_distance(pos, impl['initial'], exp):.3e} farther from the creation position than the closest point of its segment", "observed": impl["initial"], "expected": fl(exp)})
             for t, p in zip(case["ts"], impl["positions"]):
                 q = A(p)
                 if np.linalg.norm(np.cross(q - p1, d)) > 1e-9 * sc * np.linalg.norm(d):
@@ -710,9 +750,12 @@ class C17(core.Check):
                 if abs(A(impl[name]) @ nn) > 1e-12:
                     out.append({"site": "PlaneClamp:direction-not-in-plane", "what": f"{name}_dir . normal = {A(impl[name]) @ nn}"})
             exp = pos - ((pos - point) @ nn) * nn
-            if not _near(exp, impl["initial"], MIN_TOL * sc):
-                site = "PlaneClamp:initial-position" + (":on-plane" if case["on"] else ":projection")
-                out.append({"site": site, "what": "a fresh clamp does not report the foot point on its plane", "observed": impl["initial"], "expected": fl(exp)})
+            if abs((A(impl["initial"]) - point) @ nn) > 1e-9 * sc:
+                out.append({"site": "PlaneClamp:initial-position:off-plane", "what": "a fresh clamp reports a point that is not on its plane", "observed": impl["initial"]})
+            elif case["on"] and not _near(exp, impl["initial"], MIN_TOL * sc):
+                out.append({"site": "PlaneClamp:initial-position:on-plane", "what": "a clamp created on its plane does not report the creation position", "observed": impl["initial"], "expected": fl(exp)})
+            elif not case["on"] and not closest_ok(pos, impl["initial"], exp):
+                out.append({"site": "PlaneClamp:initial-position:projection", "what": f"a fresh clamp reports a point that is {excess_distance(pos, impl['initial'], exp):.3e} farther from the creation position than the foot point on its plane", "observed": impl["initial"], "expected": fl(exp)})
             for ab, p in zip(case["ab"], impl["positions"]):
                 if abs((A(p) - point) @ nn) > 1e-9 * _scale(p, point):
                     out.append({"site": "PlaneClamp:position-off-plane", "what": f"params {ab}", "observed": p})
